@@ -286,7 +286,7 @@ def g_header(s):
                      "fr]", "^", "no\x0b", "日本", "ja", "en-", "-en", "e n", "pt--BR", "_fr", "fr_", "a__b", "-_-", "en-_au"])
     colon = s.choice([":", ":", ":", "", "::", " ="])
     hdr = s.choice(ws) + "#" + s.choice(ws) + word + s.choice(ws) + colon + s.choice(ws) + name + s.choice(ws + ["\r", " \t", " x", "#"])
-    pos = s.choice(["top", "top", "after-comment", "after-blank", "after-tag", "after-feature", "second-header"])
+    pos = s.choice(["top", "top", "after-comment", "after-blank", "after-tag", "after-feature", "second-header", "after-banner"])
     return {"sub": "header", "header": hdr, "position": pos, "default": s.choice(["en", "en", "no", "fr"]), "reuse": s.int(2)}
 
 
@@ -294,12 +294,12 @@ def check_header(case, stats):
     hdr, pos, dflt = case["header"], case["position"], case["default"]
     m = LANGUAGE_HEADER.match(hdr[lead_ws(hdr):] + "\n") if trim(hdr) else None
     name = m.group(1) if m else None
-    top = pos in ("top", "after-comment", "after-blank")
+    top = pos in ("top", "after-comment", "after-blank", "after-banner")
     active = top and name is not None
     lang = name if (active and name in DIALECTS) else (dflt if pos != "second-header" else "no")
     D = DIALECTS[lang]
     feat = D["feature"][0] + ": f"
-    lines = {"top": [hdr, feat], "after-comment": ["# c", hdr, feat], "after-blank": ["", "  ", hdr, feat], "after-tag": ["@t", hdr, feat],
+    lines = {"top": [hdr, feat], "after-banner": ["# licence banner line"] * 23 + [""] * 20 + [hdr, feat], "after-comment": ["# c", hdr, feat], "after-blank": ["", "  ", hdr, feat], "after-tag": ["@t", hdr, feat],
              "after-feature": [feat, hdr, " " + D["scenario"][0] + ": s"], "second-header": ["#language: no", hdr, feat]}[pos]
     text = "\n".join(lines) + "\n"
     stats.case(text, m is not None or "anguag" in hdr, sample=case, labels=[pos, "matches" if m else "near-miss", "known" if name in DIALECTS else "unknown" if name else "-"])
@@ -354,8 +354,8 @@ def unit_header(a):
         # every dialect code in other spellings (case, underscore, without the hyphen, region only): a code is known only as listed
         cases = []
         for d in sorted(DIALECTS):
-            for v in sorted({d.lower(), d.upper(), d.swapcase(), d.title(), d.capitalize(), d.replace("-", "_"), d.replace("-", ""), d.split("-")[-1], d + "-", d + "-" + d, d[:1], d + d[-1:]}):
-                if v and v != d:
+            for v in sorted({d.lower(), d.upper(), d.swapcase(), d.title(), d.capitalize(), d.replace("-", "_"), d.replace("-", ""), d.split("-")[-1], d.split("-")[0], d + "-", d + "-" + d, d[:1], d + d[-1:]} | {"nb", "nn", "iw", "in", "zh", "mk", "sr", "hy", "jp", "cn", "ua", "cz", "dk", "gr"}):
+                if v and v != d and v not in DIALECTS:
                     for i, pos in enumerate(("top", "after-comment")):
                         cases.append({"sub": "header", "header": ["#language: ", "# language:"][i] + v, "position": pos, "default": "en" if d != "en" else "fr", "reuse": i})
         sweep(stats, cases, check_header)
